@@ -25,6 +25,7 @@ import (
 	"io"
 	"net/http"
 	"net/http/httptest"
+	"net/url"
 	"os"
 	"path/filepath"
 	"runtime"
@@ -79,6 +80,8 @@ type simMiner struct {
 	gid     string // goroutine id of the DKGProcess loop
 	entries int    // number of times the loop entered its select
 	lmu     sync.Mutex
+	loopCh  chan chain.PhaseEvent // what the loop reads
+	realCh  chan chain.PhaseEvent // what sendPhase writes to
 	// the block this miner has finalized last
 	lfb *block.Block
 }
@@ -90,11 +93,28 @@ type simSharder struct {
 	down bool
 }
 
+// setView makes the sharders reachable according to the abstract view of a step: "cur" = the up-to-date
+// sharder s1 (and s2 if it serves the same block), "lag" = only the lagging sharder s2, "none" = nobody.
+func (s *sim) setView(view string) {
+	cur, lagging := s.sh[0], s.sh[1]
+	switch view {
+	case "cur":
+		cur.down, lagging.down = false, lagging.lfb != cur.lfb
+	case "lag":
+		cur.down, lagging.down = true, false
+	case "none":
+		cur.down, lagging.down = true, true
+	default:
+		rec.Fatal("vcclient: unknown view %q", view)
+	}
+}
+
 // fate of the transaction a phase function sends
 const (
-	fateOK   = "ok"   // included in the current block, confirmed
-	fateLate = "late" // not confirmed; included in the next block
-	fateLost = "lost" // never included
+	fateOK    = "ok"    // included in the current block, confirmed
+	fateLate  = "late"  // not confirmed; included in the next block
+	fateLost  = "lost"  // never included
+	fateBlind = "blind" // included in the current block, but the confirmation fails
 )
 
 type sim struct {
@@ -108,18 +128,19 @@ type sim struct {
 	restCur *simSharder
 	dbs     []*grocksdb.TransactionDB
 
-	mu       sync.Mutex
-	txns     map[string]*httpclientutil.Transaction // captured puts by hash
-	decided  map[string][]byte                      // confirmation answers already given, by hash (nil: not found)
-	fate     string                                 // fate of the next transaction
-	late     []*httpclientutil.Transaction
-	drop     map[string]bool // "from>to" share requests the network loses
-	onShare  func(from, to *simMiner, status int, body string)
-	onTxn    func(m *simMiner, t *httpclientutil.Transaction, fate string, res *world.Result)
-	onREST   func(path string, sh *simSharder, status int)
-	debug    bool
-	traceCtx context.Context
-	stopAll  context.CancelFunc
+	mu        sync.Mutex
+	txns      map[string]*httpclientutil.Transaction // captured puts by hash
+	decided   map[string][]byte                      // confirmation answers already given, by hash (nil: not found)
+	fate      string                                 // fate of the next transaction
+	late      []*httpclientutil.Transaction
+	drop      map[string]bool // "from>to" share requests the network loses
+	onShare   func(from, to *simMiner, status int, body string, share string)
+	onConfirm func(m *simMiner, t *httpclientutil.Transaction, fate string) bool // true: executed, found
+	viewPoll  string                                                             // which sharders answer /getPhase
+	viewRun   string                                                             // ... and everything else
+	debug     bool
+	traceCtx  context.Context
+	stopAll   context.CancelFunc
 }
 
 type loopKeyT struct{}
@@ -172,7 +193,7 @@ func (m *simMiner) idle() bool {
 	m.lmu.Lock()
 	gid := m.gid
 	m.lmu.Unlock()
-	if gid == "" || len(m.mc.PhaseEvents()) > 0 {
+	if gid == "" || len(m.loopCh) > 0 {
 		return false
 	}
 	buf := make([]byte, 1<<20)
@@ -311,6 +332,7 @@ func (s *sim) startMiners() {
 	s.late = nil
 	s.drop = map[string]bool{}
 	s.fate = fateOK
+	s.viewPoll, s.viewRun = "cur", "cur"
 	s.mu.Unlock()
 	for i, k := range w.Miners {
 		m := &simMiner{s: s, idx: i, key: k, node: w.MinerNodes[i], done: make(chan struct{})}
@@ -339,6 +361,10 @@ func (s *sim) startMiners() {
 		restore()
 		ctx, cancel := context.WithCancel(s.traceCtx)
 		m.cancel = cancel
+		// the loop reads a channel of the harness; sendPhase keeps writing to the chain's own one; the driver
+		// moves an event from the one to the other (and so knows that there was one)
+		m.loopCh = make(chan chain.PhaseEvent, 1)
+		m.realCh = m.c.VerifVCSwapPhaseEvents(m.loopCh)
 		go func(m *simMiner) {
 			defer close(m.done)
 			m.mc.DKGProcess(loopCtx{Context: ctx, m: m})
@@ -359,6 +385,9 @@ func (s *sim) startMiners() {
 			}
 			time.Sleep(100 * time.Microsecond)
 		}
+	}
+	for _, m := range s.ms {
+		m.c.VerifVCSwapPhaseEvents(m.realCh) // the loop has taken its channel
 	}
 	time.Sleep(2 * time.Millisecond)
 	for _, m := range s.ms {
@@ -453,6 +482,9 @@ func (t apiRT) RoundTrip(req *http.Request) (*http.Response, error) {
 		return resp(req, 200, []byte(`{}`)), nil
 	case strings.HasSuffix(path, "/v1/transaction/get/confirmation"):
 		sh := s.shPort[port]
+		s.mu.Lock()
+		s.setView(s.viewRun)
+		s.mu.Unlock()
 		if sh == nil || sh.down {
 			return nil, fmt.Errorf("vcclient: sharder unreachable")
 		}
@@ -462,6 +494,13 @@ func (t apiRT) RoundTrip(req *http.Request) (*http.Response, error) {
 		return resp(req, 404, []byte(`{"error":"not found"}`)), nil
 	case strings.Contains(path, "/v1/screst/"):
 		sh := s.shPort[port]
+		s.mu.Lock()
+		if strings.HasSuffix(path, "/getPhase") {
+			s.setView(s.viewPoll)
+		} else {
+			s.setView(s.viewRun)
+		}
+		s.mu.Unlock()
 		if sh == nil || sh.down {
 			return nil, fmt.Errorf("vcclient: sharder unreachable")
 		}
@@ -483,9 +522,6 @@ func (t apiRT) RoundTrip(req *http.Request) (*http.Response, error) {
 		s.mu.Unlock()
 		out := rr.Result()
 		out.Request = req
-		if s.onREST != nil {
-			s.onREST(path[strings.LastIndex(path, "/"):], sh, out.StatusCode)
-		}
 		return out, nil
 	}
 	return resp(req, 404, []byte(`{}`)), nil
@@ -525,27 +561,12 @@ func (s *sim) confirm(hash string) ([]byte, bool) {
 	s.decided[hash] = nil
 	s.mu.Unlock()
 	m := s.cur
-	switch fate {
-	case fateOK:
-		res := s.execClientTxn(txn)
-		if s.onTxn != nil {
-			s.onTxn(m, txn, fate, &res)
-		}
-		if res.Class == "rejected" {
-			return nil, false
-		}
+	if s.onConfirm != nil && s.onConfirm(m, txn, fate) {
 		b, _ := json.Marshal(map[string]interface{}{"txn": txn, "version": "1.0", "hash": txn.Hash})
 		s.mu.Lock()
 		s.decided[hash] = b
 		s.mu.Unlock()
 		return b, true
-	case fateLate:
-		s.mu.Lock()
-		s.late = append(s.late, txn)
-		s.mu.Unlock()
-	}
-	if s.onTxn != nil {
-		s.onTxn(m, txn, fate, nil)
 	}
 	return nil, false
 }
@@ -587,13 +608,17 @@ func (t n2nRT) RoundTrip(req *http.Request) (*http.Response, error) {
 	s.mu.Lock()
 	lost := s.drop[from.key.Name+">"+to.key.Name]
 	s.mu.Unlock()
+	body, _ := io.ReadAll(req.Body)
+	share := ""
+	if vals, err := url.ParseQuery(string(body)); err == nil {
+		share = vals.Get("secret_share")
+	}
 	if lost {
 		if s.onShare != nil {
-			s.onShare(from, to, 0, "")
+			s.onShare(from, to, 0, "", share)
 		}
 		return nil, fmt.Errorf("vcclient: request lost")
 	}
-	body, _ := io.ReadAll(req.Body)
 	sreq := httptest.NewRequest(req.Method, req.URL.String(), bytes.NewReader(body))
 	sreq.Header = req.Header.Clone()
 	rr := httptest.NewRecorder()
@@ -605,7 +630,7 @@ func (t n2nRT) RoundTrip(req *http.Request) (*http.Response, error) {
 	rb, _ := io.ReadAll(out.Body)
 	out.Body = io.NopCloser(bytes.NewReader(rb))
 	if s.onShare != nil {
-		s.onShare(from, to, out.StatusCode, string(rb))
+		s.onShare(from, to, out.StatusCode, string(rb), share)
 	}
 	return out, nil
 }
@@ -614,11 +639,18 @@ func (t n2nRT) RoundTrip(req *http.Request) (*http.Response, error) {
 
 // poll makes the miner fetch the phase from the sharders (the real GetPhaseFromSharders) and lets its loop
 // process the event completely (phase function, share requests, transaction, confirmation).
-func (s *sim) poll(m *simMiner) {
+func (s *sim) poll(m *simMiner) (delivered bool) {
 	restore := s.enter(m)
 	defer restore()
 	m.mc.GetPhaseFromSharders(context.Background())
+	select {
+	case ev := <-m.realCh:
+		delivered = true
+		m.loopCh <- ev
+	default:
+	}
 	m.waitIdle()
+	return
 }
 
 // finalize makes the miner finalize block b: the real ViewChange, then the chain's LFB bookkeeping.
